@@ -41,6 +41,16 @@ NEEDS = {
  "C17b-dotdot-after-rpc-case": ("C17", ["C17"], "a '..' or '.' step evaluated while standing on an rpc/action node returns nil"),
  "C18b-resolving-mark-not-cleared": ("C18", ["C18"], "a typedef whose type fails to resolve keeps its cycle mark: every later Process reports a bogus self-reference"),
  "C19b-resolving-flag-on-builtin-typedefs": ("C19", ["C19"], "independent module sets processed in parallel write a flag on the shared built-in typedef objects (race; transient bogus cycle error)"),
+ "C01c-cycle-guard-only-direct-uses": ("C01", ["C01"], "a grouping whose uses of itself (or of the next grouping on a cycle) is nested inside a container: never marked as being expanded, the recursion overflows the stack"),
+ "C02c-tcol-bytes-after-skip": ("C02", ["C02"], "a comment or single-quoted piece holding a multi-byte rune on the line of an opening double quote, and a continuation line indented deeper than the quote"),
+ "C03c-ext-scratch-shared-per-type": ("C03", ["C03"], "a node with an extension statement that contains, later in its body, a descendant of the same node type with an extension of its own, in a process that built such a node before"),
+ "C04c-postaugment-sweep-dedup-by-name": ("C04", ["C04"], "two revisions of a module loaded, an augment into the older one (import by revision-date) that collides or carries a bad body: the late error is never swept"),
+ "C05c-prefix-memo-shared-by-family": ("C05", ["C05", "C09"], "a module and its submodule bind one prefix to two different modules and both resolve a typedef or identity base through it"),
+ "C06c-findgrouping-seen-owner": ("C06", ["C06"], "a submodule that includes a sibling and, inside a grouping it defines, uses a grouping defined at the top of its module"),
+ "C07c-empty-dir-map-shared": ("C07", ["C07", "C06"], "grouping with a childless container or case used twice, then an augment into one copy"),
+ "C08c-deviate-parent-cache-stale": ("C08", ["C08"], "one module: a deviation of P/x, then not-supported on P (or above), then a deviation of P/y with the same parent spelling: applied to the detached subtree, not reported"),
+ "C09c-enum-equal-sorted-sets": ("C09", ["C09"], "a union with two enumeration (or bits) members that have the same names and the same set of values in another assignment: the second member is dropped"),
+ "C10c-coalesce-addquantum-wrap": ("C10", ["C10"], "a range part ending at 18446744073709551615 followed by a part nested in it: addQuantum wraps to 0"),
  "C20b-empty-write-clears-partial": ("C20", ["C20"], "zero-length Write in the middle of a line clears the mid-line flag: the next Write gets a prefix inside the line"),
  "C20-early-out-continued-line": ("C20", ["C20"], "short write of 1..len(prefix) bytes on a Write that continues a partial line returns 0 although caller bytes were written"),
 }
